@@ -144,9 +144,36 @@ class Located:
 _cache = {}
 
 
+def drop_disabled_regions(s):
+    """blank out `#if 0 ... #endif` regions that have no #else/#elif of their own (dead code at file or class scope,
+    e.g. the three disabled ripser_auto overloads); line structure is kept"""
+    lines = s.split("\n")
+    out = list(lines)
+    i = 0
+    while i < len(lines):
+        if re.match(r"\s*#\s*if\s+0\s*$", lines[i]):
+            depth, j, plain = 1, i + 1, True
+            while j < len(lines) and depth > 0:
+                t = lines[j].strip()
+                if re.match(r"#\s*if", t):
+                    depth += 1
+                elif re.match(r"#\s*endif", t):
+                    depth -= 1
+                elif depth == 1 and re.match(r"#\s*(else|elif)", t):
+                    plain = False
+                j += 1
+            if plain and depth == 0:
+                for k in range(i, j):
+                    out[k] = ""
+                i = j
+                continue
+        i += 1
+    return "\n".join(out)
+
+
 def _stripped(path):
     if path not in _cache:
-        _cache[path] = strip_comments(read_repo(path))
+        _cache[path] = drop_disabled_regions(strip_comments(read_repo(path)))
     return _cache[path]
 
 
